@@ -75,6 +75,56 @@ def gen_history(u: Universe, rng: random.Random) -> list[dict]:
     return hist
 
 
+def gen_auth_history(u: Universe, rng: random.Random) -> list[dict]:
+    ops = list(u.ops.values())
+    tags = sorted({t for o in ops for t in (o.tags or [])})
+    opids = sorted({o.operation_id for o in ops if o.operation_id})
+    out = []
+    for k in range(rng.choice([1, 2, 2, 3])):
+        flt = []
+        for kind in rng.sample(["apply_to", "skip_for"], rng.choice([0, 1, 1, 1, 2])):
+            attrs = ["method", "path", "name", "func", "func"] + (["tag", "tag", "tag"] if tags else []) + (["operation_id"] * 3 if opids else [])
+            attr = rng.choice(attrs)
+            if attr == "method":
+                val = rng.choice(sorted({o.method for o in ops}))
+            elif attr == "path":
+                val = rng.choice(sorted({o.path for o in ops}))
+            elif attr == "name":
+                val = rng.choice(sorted({o.key for o in ops}))
+            elif attr == "tag":
+                val = rng.choice(tags) if rng.random() < 0.7 else rng.sample(tags, min(2, len(tags)))
+            elif attr == "operation_id":
+                val = rng.choice(opids) + rng.choice(["", "_v2"])
+            else:
+                val = rng.choice(["v1", "v2"])
+            flt.append({"kind": kind, "attr": attr, "value": val})
+        out.append({"k": k, "scope": rng.choice(["global", "global", "schema"]), "cached": rng.random() < 0.5, "filters": flt})
+    return out
+
+
+def auth_selects(flt: list[dict], rec: dict) -> bool:
+    """Reference: does a provider with these filters apply to the observed operation (method, path, name, tags, operationId, variant)?"""
+    def m(f) -> bool:
+        a, val = f["attr"], f["value"]
+        vals = val if isinstance(val, list) else [val]
+        if a == "method":
+            return rec["method"] in [x.upper() for x in vals]
+        if a == "path":
+            return rec["path"] in vals
+        if a == "name":
+            return rec["key"] in vals
+        if a == "tag":
+            return any(t in vals for t in rec["tags"])
+        if a == "operation_id":
+            return rec["operation_id"] is not None and rec["operation_id"] in vals
+        return rec["variant"] == val
+
+    if any(m(f) for f in flt if f["kind"] == "skip_for"):
+        return False
+    inc = [f for f in flt if f["kind"] == "apply_to"]
+    return not inc or any(m(f) for f in inc)
+
+
 def selects(flt: list[dict], op) -> bool:
     inc = [f for f in flt if f["kind"] == "apply_to"]
     exc = [f for f in flt if f["kind"] == "skip_for"]
@@ -119,6 +169,13 @@ def gen_desc(verif_seed: int, i: int, tier: str = "quick") -> dict:
     if len(cfg["history"]) >= 2 and r2.random() < 0.3:
         # two stages on one loaded schema: part of the history happens after data was generated once already
         cfg["split"] = r2.randrange(1, len(cfg["history"]))
+    # auth-provider stage (own RNG, so the descriptors of earlier rounds keep their other draws): 1-3 providers with
+    # apply_to / skip_for filters - also by tag, operationId and matcher function - evaluated against the loaded schema
+    # *and* a second rendering of the same API ("v2": same METHOD /path labels, other operationIds, tags rotated)
+    r3 = random.Random(rs ^ 0xA07)
+    if r3.random() < 0.6:
+        cfg["auth_hist"] = gen_auth_history(u, r3)
+        cfg["auth_order"] = r3.choice(["AB", "BA", "ABAB"])
     return {
         "property": PROPERTY,
         "profile": "c19",
@@ -147,15 +204,17 @@ RULE_TEXT = (
     "dispatchers; interleaved unregister calls; in a third of the cases the history is split in two stages on one loaded schema, "
     "the second part happening after data was generated once) followed by a simulated engine run and by cases generated straight from the cached operation objects "
     "(schema[path][method].as_strategy(), the Python-API route); "
+    "in 60% of the cases followed by an auth-provider stage: 1-3 providers on the global / schema storage with apply_to/skip_for by method, path, name, tag, operationId or matcher function, "
+    "evaluated on generated cases of the loaded schema and of a second rendering of the same API (same METHOD /path labels, other operationIds, rotated tags) in AB / BA / ABAB order - the data must come from the first provider whose own filter selects the operation; "
     "every fuzzing/stateful wire request of operation o must carry marker k iff hook k is still registered and its own filter "
     "selects o; non-trivial = >= 2 hooks registered with different filters and >= 5 observed requests; distinct = distinct "
     "(history digest, wire digest)"
 )
 ASSUMPTIONS = [
     "secondary property: no schedule/fault dimension; histories and configurations are sampled",
-    "test-scope dispatchers (pytest) and auth-provider filters (covered by C14/R4) are not exercised here",
+    "test-scope dispatchers (pytest) are not exercised here; auth-provider filters are exercised on generated cases (global and schema storage, two renderings sharing labels), their wire effect in C14/R4",
 ]
-EXPECTED_PROBES = ["hooks_registered", "unregistered", "filtered_hooks", "named_form", "schema_scope", "map_case_hooks", "two_stage_histories", "direct_cases"]
+EXPECTED_PROBES = ["hooks_registered", "unregistered", "filtered_hooks", "named_form", "schema_scope", "map_case_hooks", "two_stage_histories", "direct_cases", "auth_providers", "auth_filtered_by_tag_id_func", "auth_cases"]
 
 
 def fired_faults(desc: dict, res: dict) -> dict:
@@ -169,6 +228,10 @@ def fired_faults(desc: dict, res: dict) -> dict:
         "schema_scope": sum(1 for x in regs if x["scope"] == "schema"),
         "map_case_hooks": sum(1 for x in regs if x["hook"] == "map_case"),
         **({"two_stage_histories": 1} if (res.get("stats") or {}).get("staged") else {}),
+        **({"auth_providers": len(desc["config"]["auth_hist"]),
+            "auth_filtered_by_tag_id_func": sum(1 for x in desc["config"]["auth_hist"] if any(f["attr"] in ("tag", "operation_id", "func") for f in x["filters"]))}
+           if desc["config"].get("auth_hist") else {}),
+        **({"auth_cases": (res.get("stats") or {}).get("auth_cases")} if (res.get("stats") or {}).get("auth_cases") else {}),
         **({"direct_cases": (res.get("stats") or {}).get("direct_cases")} if (res.get("stats") or {}).get("direct_cases") else {}),
     }
 
@@ -294,10 +357,100 @@ class C19Profile(Profile):
                 target(fn)
                 fns[k] = (fn, step["scope"])
             run_stage(schema)
+            if cfg.get("auth_hist"):
+                self._auth_stage(ctx, schema)
             ctx.exit_code = 0
         except Exception as exc:  # noqa: BLE001
             ctx.loop_exception = exc
             ctx.loop_traceback = traceback.format_exc()
+        finally:
+            schemathesis.auths.unregister()
+
+    def _auth_stage(self, ctx, schema_a) -> None:
+        import copy
+
+        import hypothesis
+        import schemathesis
+
+        cfg = ctx.config
+        doc_b = copy.deepcopy(schema_a.raw_schema)
+
+        def walk(o) -> None:
+            if isinstance(o, dict):
+                for key, val in list(o.items()):
+                    if key == "operationId" and isinstance(val, str):
+                        o[key] = val + "_v2"
+                    else:
+                        walk(val)
+            elif isinstance(o, list):
+                for x in o:
+                    walk(x)
+
+        walk(doc_b)
+        methods = {"get", "put", "post", "delete", "options", "head", "patch", "trace"}
+        opdefs = [od for item in (doc_b.get("paths") or {}).values() if isinstance(item, dict)
+                  for mth, od in item.items() if mth.lower() in methods and isinstance(od, dict)]
+        tags = [od.get("tags") for od in opdefs]
+        for od, t in zip(opdefs, tags[1:] + tags[:1]):
+            if t:
+                od["tags"] = list(t)
+            else:
+                od.pop("tags", None)
+        doc_b["x-variant"] = "v2"
+        schema_b = schemathesis.openapi.from_dict(doc_b)
+        for step in cfg["auth_hist"]:
+            k = step["k"]
+
+            class Provider:
+                _k = str(k)
+
+                def get(self, case, context):
+                    return self._k
+
+                def set(self, case, data, context):
+                    case.headers = {**(case.headers or {}), "X-Auth-Provider": data}
+
+            Provider.__name__ = f"Provider{k}"
+            kwargs = {} if step["cached"] else {"refresh_interval": None}
+            target = (schemathesis.auth if step["scope"] == "global" else schema_a.auth)(**kwargs)
+            for f in step["filters"]:
+                if f["attr"] == "func":
+                    want = f["value"]
+
+                    def matcher(context, want=want):
+                        return (context.operation.schema.raw_schema.get("x-variant") or "v1") == want
+
+                    matcher.__name__ = f"is_{want}"
+                    target = getattr(target, f["kind"])(matcher)
+                else:
+                    target = getattr(target, f["kind"])(**{f["attr"]: f["value"]})
+            target(Provider)
+        records: list = []
+        ctx.extra["c19_auth"] = records
+        for variant in cfg.get("auth_order", "AB"):
+            schema = schema_a if variant == "A" else schema_b
+            for key, refop in ctx.universe.ops.items():
+                try:
+                    operation = schema[refop.path][refop.method.lower()]
+                except Exception:  # noqa: BLE001
+                    continue
+                got: list = []
+
+                @hypothesis.seed(cfg["seed"])
+                @hypothesis.settings(max_examples=2, deadline=None, database=None, phases=[hypothesis.Phase.generate],
+                                     suppress_health_check=list(hypothesis.HealthCheck), derandomize=False)
+                @hypothesis.given(case=operation.as_strategy())
+                def draw(case) -> None:
+                    got.append((case.headers or {}).get("X-Auth-Provider"))
+
+                try:
+                    draw()
+                except Exception:  # noqa: BLE001
+                    pass
+                records.append({
+                    "variant": "v1" if variant == "A" else "v2", "key": key, "method": refop.method.upper(), "path": refop.path,
+                    "operation_id": operation.definition.raw.get("operationId"), "tags": list(operation.tags or []), "got": got,
+                })
 
     def judge(self, ctx, status: str) -> list[dict]:
         vs: list[dict] = []
@@ -403,7 +556,27 @@ class C19Profile(Profile):
                     form=reg["form"],
                     **({"after_first_generation": True} if stage == 1 else {}),
                 )
-        ctx.extra["c19_stats"] = {"observed": observed, "staged": int(split is not None and mark is not None), "direct_cases": n_direct}
+        # auth providers: the first registered provider (schema-level storage first, if it has any) whose own filter selects
+        # the operation supplies the data; none selected -> no auth
+        n_auth = 0
+        ah = ctx.config.get("auth_hist") or []
+        for rec in ctx.extra.get("c19_auth") or []:
+            schema_level = [x for x in ah if x["scope"] == "schema"] if rec["variant"] == "v1" else []
+            storage = schema_level or [x for x in ah if x["scope"] == "global"]
+            want = next((str(x["k"]) for x in storage if auth_selects(x["filters"], rec)), None)
+            for got in rec["got"]:
+                n_auth += 1
+                if got != want:
+                    culprit = next((x for x in ah if str(x["k"]) == (got if got is not None else want)), None)
+                    v(
+                        "R7",
+                        f"auth provider data on a case of {rec['key']} ({rec['variant']} rendering, operationId {rec['operation_id']!r}, tags {rec['tags']}): "
+                        f"got provider {got!r}, the providers' own filters say {want!r} (providers in registration order: "
+                        f"{[(x['k'], x['scope'], x['filters']) for x in ah]}; evaluation order {ctx.config.get('auth_order')})",
+                        what="auth_applied_outside_filter" if got is not None and (want is None or got != want) else "auth_withheld",
+                        filter_attrs=sorted({f["attr"] for f in (culprit or {}).get("filters", [])}),
+                    )
+        ctx.extra["c19_stats"] = {"auth_cases": n_auth, "observed": observed, "staged": int(split is not None and mark is not None), "direct_cases": n_direct}
         return vs
 
     def stats(self, ctx) -> dict:
